@@ -67,6 +67,12 @@ func (c *aggCase) snapshot() *stack.Snapshot {
 		// two thirds of the snapshots look as after path guessing and source analysis
 		gen.Resolve(s)
 	}
+	if n := len(s.Goroutines); n > 1 && sum%5 == 1 {
+		// a snapshot constructed directly (e.g. goroutines sorted by a caller): the crashing goroutine is not the
+		// first element of the list
+		s.Goroutines[0].First = false
+		s.Goroutines[1+sum%(n-1)].First = true
+	}
 	return s
 }
 
